@@ -259,16 +259,6 @@ Proof.
 Qed.
 
 (* ------------------------------------------------------------------ rebuild of whole trees *)
-Fixpoint scaled_free (x : xt) : Prop :=
-  match x with
-  | XScaled _ _ _ _ _ _ _ => False
-  | XArray e _ _ => scaled_free e
-  | XTuple es => (fix all (l : list xt) : Prop := match l with [] => True | e :: r => scaled_free e /\ all r end) es
-  | XStruct ms _ _ =>
-      (fix all (l : list (str * xt)) : Prop := match l with [] => True | q :: r => scaled_free (snd q) /\ all r end) ms
-  | _ => True
-  end.
-
 Definition export_list : list xt -> res (list pyval) :=
   fix go (l : list xt) : res (list pyval) :=
     match l with [] => Ok [] | e :: r => xt_export e >>= fun j => go r >>= fun js => Ok (j :: js) end.
@@ -289,7 +279,7 @@ Definition get_members (fuel : nat) (p : str) : list (str * pyval) -> res (list 
     end.
 
 Definition rebuilds (p : str) (x : xt) : Prop :=
-  wfx x -> scaled_free x -> forall j, xt_export x = Ok j ->
+  wfx x -> forall j, xt_export x = Ok j ->
   forall fuel, depth x <= fuel -> get_dt fuel p j = Ok (Some (norm p x)).
 
 Ltac ev_lookup2 :=
@@ -303,28 +293,28 @@ Ltac ev_lookup2 :=
 Ltac start_get2 L := cbn [get_dt]; ev_lookup2; cbn [bind negb]; rewrite L; ev_lookup2; cbv beta iota; unfold some_xt.
 
 Lemma get_list_ok p f : forall es js,
-  Forall (rebuilds p) es -> Forall wfx es -> Forall scaled_free es ->
+  Forall (rebuilds p) es -> Forall wfx es ->
   Forall (fun e => depth e <= f) es -> export_list es = Ok js -> get_list f p js = Ok (map (norm p) es).
 Proof.
-  induction es as [|e es IH]; intros js HR HW HS HD E.
+  induction es as [|e es IH]; intros js HR HW HD E.
   - cbn in E. injection E as <-. reflexivity.
-  - inversion HR; inversion HW; inversion HS; inversion HD; subst.
+  - inversion HR; inversion HW; inversion HD; subst.
     cbn [export_list] in E. apply bind_ok in E as (j & Ej & E). apply bind_ok in E as (js' & Ejs & E). injection E as <-.
-    cbn [get_list]. rewrite (H1 H5 H9 j Ej f H13). cbn [bind need_xt].
-    fold (get_list f p). rewrite (IH js' H2 H6 H10 H14 Ejs). reflexivity.
+    cbn [get_list]. rewrite (H1 H5 j Ej f H9). cbn [bind need_xt].
+    fold (get_list f p). rewrite (IH js' H2 H6 H10 Ejs). reflexivity.
 Qed.
 
 Lemma get_members_ok p f : forall ms js,
   Forall (fun q => rebuilds p (snd q)) ms -> Forall (fun q => wfx (snd q)) ms ->
-  Forall (fun q => scaled_free (snd q)) ms -> Forall (fun q => depth (snd q) <= f) ms ->
+  Forall (fun q => depth (snd q) <= f) ms ->
   export_members ms = Ok js -> get_members f p js = Ok (map (fun q => (fst q, norm p (snd q))) ms).
 Proof.
-  induction ms as [|[n e] ms IH]; intros js HR HW HS HD E.
+  induction ms as [|[n e] ms IH]; intros js HR HW HD E.
   - cbn in E. injection E as <-. reflexivity.
-  - inversion HR; inversion HW; inversion HS; inversion HD; subst. cbn [snd fst] in *.
+  - inversion HR; inversion HW; inversion HD; subst. cbn [snd fst] in *.
     cbn [export_members] in E. apply bind_ok in E as (j & Ej & E). apply bind_ok in E as (js' & Ejs & E). injection E as <-.
-    cbn [get_members]. rewrite (H1 H5 H9 j Ej f H13). cbn [bind need_xt].
-    fold (get_members f p). rewrite (IH js' H2 H6 H10 H14 Ejs). reflexivity.
+    cbn [get_members]. rewrite (H1 H5 j Ej f H9). cbn [bind need_xt].
+    fold (get_members f p). rewrite (IH js' H2 H6 H10 Ejs). reflexivity.
 Qed.
 
 Lemma all_Forall {A} (P : A -> Prop) (l : list A) :
